@@ -46,6 +46,7 @@ def rules(ctx):
     ctx.rule("MIN-2", "a block split by the parent set is replaced by the intersection and the difference, both inserted where the block was removed")
     ctx.rule("MIN-3", "the difference half is block minus parent set (receiver derives from the partition, argument from the parent-state function)")
     ctx.rule("MIN-4", "work list update: both halves when the split block was pending, at least one half otherwise (every path to the next replacement)")
+    ctx.rule("MIN-7", "a block is recorded for splitting only on a path where both its intersection with the parent set and its difference from it are known to be non-empty")
     ctx.rule("MIN-6", "the refinement loop is left only when the work list is empty (no round limit or other early exit)")
     ctx.rule("MIN-5", "the classes handed to the rebuild are the partition, filtered by non-emptiness only")
 
@@ -173,6 +174,58 @@ def check(ctx, lib):
                 if r[0] == "agg" and r[1] == "tuple" and int(p_[1]) < len(r[3]):
                     return subst(r[3][int(p_[1])], c_[2])
         return o
+
+    # ---- MIN-7: a block is split only when both halves are non-empty
+    def half_test(g):
+        """(half, 'empty'|'nonempty') stated by a guard edge about X∩Y ('inter') or Y\\X ('diff'); None when the guard says nothing recognisable about them"""
+        o = local.peel(g["origin"])
+        neg = False
+        while o[0] == "unop" and o[1] == "Not":
+            neg, o = not neg, local.peel(o[2])
+        tv = guards.edge_truth(g)
+        if tv is None:
+            return None
+        which = zero = None
+        if o[0] == "binop" and o[1] in ("Eq", "Ne") and any(local.const_value(local.peel(x)) == 0 for x in o[2:4]):
+            other = [x for x in o[2:4] if local.const_value(local.peel(x)) != 0]
+            if other:
+                w = through_helper(other[0])
+                if _calls_in(w, lambda n: n.endswith("::intersection")):
+                    which = "inter"
+                elif _calls_in(w, lambda n: n.endswith("::difference")):
+                    which = "diff"
+                zero = (o[1] == "Eq")
+        elif o[0] == "call" and o[1].endswith("::is_empty") and o[2]:
+            w = through_helper(local.peel(o[2][0]))
+            if _calls_in(w, lambda n: n.endswith("::intersection")):
+                which = "inter"
+            elif _calls_in(w, lambda n: n.endswith("::difference")):
+                which = "diff"
+            zero = True
+        elif o[0] == "call" and o[1].endswith("::is_disjoint"):
+            which, zero = "inter", True
+        if which is None:
+            return None
+        empty = (zero == tv) != neg
+        return which, "empty" if empty else "nonempty"
+
+    for bi, t, v, rvec in recs:
+        facts = {}
+        for g in guards.guards(M, bi):
+            if g["loop"] or not fi.cfg.edge_dominates(g["block"], g["succ"], bi):
+                continue
+            ht = half_test(g)
+            if ht:
+                facts.setdefault(ht[0], set()).add(ht[1])
+        wrong = [h for h, st in facts.items() if "empty" in st]
+        if wrong:
+            ctx.violation("MIN-7", (M.path, "split condition"), "a block is recorded for splitting on a path where its %s is known to be *empty* (the skip test is inverted): blocks that need "
+                          "no split are replaced by an empty and a full half, and blocks that need one are skipped, so distinguishable states stay merged"
+                          % " and its ".join("intersection with the parent set" if h == "inter" else "difference from the parent set" for h in wrong), M.loc(t.get("line")))
+        elif facts.get("inter") == {"nonempty"} and facts.get("diff") == {"nonempty"}:
+            ctx.ok("MIN-7", M.path + ":split only when X∩Y and Y\\X are both non-empty", None, M.loc(t.get("line")))
+        else:
+            ctx.undecided("MIN-7", M.path, "cannot see that both halves are known to be non-empty where the split is recorded (recognised facts: %s)" % {k: sorted(v_) for k, v_ in facts.items()}, M.loc(t.get("line")))
 
     for bi, t, v, rvec in recs:
         f1, f2 = through_helper(v[3][1]), through_helper(v[3][2])
